@@ -189,6 +189,8 @@ class Kernel:
         self.cfg = {}
         self.harness_error = None
         self.running = None
+        self.slow = ()            # process names (a name also covers its children "name.x") that are scheduled rarely
+        self.slow_factor = 25
 
     # ---- identity
     def cur(self):
@@ -325,7 +327,19 @@ class Kernel:
                     return
                 continue
             self.now = max(self.now, min(nxt))
-        nxt_t = cands[self.ch.draw(len(cands))] if self.end is None else cands[0]
+        if self.end is not None:
+            nxt_t = cands[0]
+        elif self.slow and len(cands) > 1:
+            # stalled / slow nodes: threads of the named processes get a small share of the scheduling decisions
+            ws = [1 if any(t.proc.name == n or t.proc.name.startswith(n + ".") for n in self.slow) else self.slow_factor for t in cands]
+            r = self.ch.draw(sum(ws))
+            i = 0
+            while r >= ws[i]:
+                r -= ws[i]
+                i += 1
+            nxt_t = cands[i]
+        else:
+            nxt_t = cands[self.ch.draw(len(cands))]
         if nxt_t.state == "blocked":
             nxt_t.state = "runnable"
         self.running = nxt_t
